@@ -355,7 +355,7 @@ func (st *SortTable) Zero(s string) Term {
 func (st *SortTable) Preamble(folds []*FoldDecl) string {
 	var b strings.Builder
 	b.WriteString("(declare-sort Str 0)\n(declare-sort Func 0)\n(declare-const func_nil Func)\n(declare-const str_empty Str)\n")
-	b.WriteString("(declare-fun str_cat (Str Str) Str)\n(declare-fun str_len (Str) Int)\n(assert (forall ((s Str)) (! (>= (str_len s) 0) :pattern ((str_len s)))))\n(assert (= (str_len str_empty) 0))\n(assert (forall ((a Str) (b Str)) (! (= (str_len (str_cat a b)) (+ (str_len a) (str_len b))) :pattern ((str_cat a b)))))\n")
+	b.WriteString("(declare-fun str_cat (Str Str) Str)\n(declare-fun str_len (Str) Int)\n(assert (forall ((s Str)) (! (>= (str_len s) 0) :pattern ((str_len s)))))\n(assert (= (str_len str_empty) 0))\n(assert (forall ((s Str)) (! (=> (= (str_len s) 0) (= s str_empty)) :pattern ((str_len s)))))\n(assert (forall ((a Str) (b Str)) (! (= (str_len (str_cat a b)) (+ (str_len a) (str_len b))) :pattern ((str_cat a b)))))\n")
 	// the sort table may grow while we print (zero values), so iterate to a fixpoint first
 	for {
 		n := len(st.structOrder) + len(st.seqOrder) + len(st.anyOrder) + len(st.opaque)
